@@ -113,7 +113,7 @@ func cliN(i int) *Program {
 }
 
 type cliOpts struct {
-	Header string // "", "ok"; unusable: "missing", "dir", "notgo", "opencomment"
+	Header string // "", "ok"; unusable: "missing", "dir", "notgo", "opencomment", "gobuild" (a //go:build line of its own)
 	Prefix string
 	Tags   string
 }
@@ -138,6 +138,8 @@ func (o cliOpts) args(cmd string, headerPath string) []string {
 			a = append(a, "-header_file", headerPath+".notgo")
 		case "opencomment":
 			a = append(a, "-header_file", headerPath+".opencomment")
+		case "gobuild":
+			a = append(a, "-header_file", headerPath+".gobuild")
 		}
 	}
 	if cmd == "gen" && o.Prefix != "" {
@@ -169,6 +171,7 @@ func prepareModule(e *Env, root string, progs []*Program) error {
 		}
 	}
 	os.WriteFile(filepath.Join(root, "header.txt.notgo"), []byte("Copyright 2026 Example Inc. All rights reserved.\n\n"), 0o644)
+	os.WriteFile(filepath.Join(root, "header.txt.gobuild"), []byte("// Copyright 2026 Example Inc.\n\n//go:build linux\n\n"), 0o644)
 	os.WriteFile(filepath.Join(root, "header.txt.opencomment"), []byte("/* Copyright 2026 Example Inc.\n   All rights reserved.\n"), 0o644)
 	return os.WriteFile(filepath.Join(root, "header.txt"), []byte(headerText), 0o644)
 }
@@ -281,7 +284,7 @@ func genScenario(e *Env, i int) cliScenario {
 	case 1:
 		s.Opts.Header = "ok"
 	case 2:
-		s.Opts.Header = []string{"missing", "notgo", "opencomment", "dir"}[(i/7)%4]
+		s.Opts.Header = []string{"missing", "notgo", "opencomment", "gobuild", "dir"}[(i/7)%5]
 	case 3:
 		s.Opts.Prefix = "gen_"
 	case 4:
@@ -417,8 +420,23 @@ func runCLI(e *Env, rep *Report, rc *refCache, s cliScenario, cmd string, mu *sy
 		}
 	}
 	obs := fmt.Sprintf("exit=%d changed=%v\nstderr:\n%s", res.Exit, changed, tail(res.Stderr, 1500))
+	if os.Getenv("VERIF_DEBUG_C17") != "" && s.Opts.Header == "gobuild" {
+		fmt.Fprintf(os.Stderr, "DEBUG %s %s %+v\n%s\n", s.ID, cmd, s.Opts, obs)
+	}
 	switch cmd {
 	case "gen":
+		if s.Opts.Header == "gobuild" && res.Exit == 0 {
+			// wire may also cope with such a header; what it writes must then still be excluded
+			// from the wireinject build, or its own next run trips over it
+			for _, c := range changed {
+				b, _ := os.ReadFile(filepath.Join(root, c[1:]))
+				if strings.HasSuffix(c, "wire_gen.go") && !strings.Contains(string(b), "!wireinject") {
+					fail("gen with a header that has a //go:build line of its own wrote "+c[1:]+" without the !wireinject constraint", obs+"\n--- file\n"+firstN(string(b), 600))
+					return
+				}
+			}
+			break
+		}
 		if s.Opts.unusable() {
 			if res.Exit == 0 {
 				fail("gen with an unusable header file ("+s.Opts.Header+") exited 0", obs)
@@ -483,6 +501,19 @@ func runCLI(e *Env, rep *Report, rc *refCache, s cliScenario, cmd string, mu *sy
 		case anyDiff:
 			want = 1
 		}
+		if s.Opts.Header == "gobuild" && res.Exit == 2 {
+			// refusing such a header is one of the two correct ways to treat it
+			break
+		}
+		if s.Opts.Header == "gobuild" {
+			// ... coping with it is the other: then diff compares as usual
+			want = 0
+			if anyF {
+				want = 2
+			} else if anyDiff {
+				want = 1
+			}
+		}
 		if res.Exit != want {
 			fail(fmt.Sprintf("diff exit status %d, want %d (unusable option=%v, failing package=%v, differing/absent output=%v)", res.Exit, want, s.Opts.unusable(), anyF, anyDiff), obs)
 			return
@@ -524,6 +555,20 @@ func CheckC17(e *Env) int {
 			if cmd != "gen" && s.Form != "gen ./..." {
 				continue
 			}
+			jobs = append(jobs, job{s, cmd})
+		}
+	}
+	// every unusable header kind and every out-of-directory prefix once with a package that
+	// would otherwise be written
+	k := 0
+	for _, hk := range []string{"missing", "dir", "notgo", "opencomment", "gobuild"} {
+		s := genScenario(e, 7*k+2)
+		k++
+		s.ID = fmt.Sprintf("sh%02d", k)
+		s.Opts = cliOpts{Header: hk}
+		s.Form = "gen ./..."
+		s.Pkgs = append(s.Pkgs[:1:1], cliPkg{P: cliS(k % 6), Class: 'S', Prior: []string{"stale", "absent", "identical"}[k%3]})
+		for _, cmd := range []string{"gen", "diff"} {
 			jobs = append(jobs, job{s, cmd})
 		}
 	}
